@@ -818,6 +818,7 @@ pub fn run(run: &Run) {
             for kind in kinds {
                 run.eval(1);
                 run.add_distinct(1);
+                let _big = crate::watch::enter_with_limit(|| format!("volume batch {kind} [{}]", f.name), crate::watch::BIG_CASE_LIMIT_S);
                 if let Err(e) = volume_case(&f, kind, VOLUME_REPS) {
                     run.violation(&format!("[{}] {e}", f.name), json!({"op": "volume", "format": f.name, "kind": kind, "k": VOLUME_REPS}), &[]);
                 }
